@@ -43,6 +43,8 @@ type Profile struct {
 	// IntArithOnOutputs allows arithmetic / int functions over integers produced by plugins
 	// (known finding K3 while open).
 	IntArithOnOutputs bool
+	// RichInput adds generated input fields (bounds, defaults, nested objects, maps).
+	RichInput bool
 	// ClosedRefs allows references to closed.result (open finding K14 when never-ending steps exist).
 	ClosedRefs bool
 	// LiteralEnabled allows `enabled: true|false` literals (known finding K11).
@@ -365,6 +367,30 @@ func GenCase(t *rapid.T, p Profile, prop string) *Case {
 		g.srcs = append(g.srcs, source{expr: &Expr{K: "in", Field: f.Name}, typ: typ})
 	}
 
+	if p.RichInput {
+		nx := rapid.IntRange(0, 2).Draw(t, "n_rich_input")
+		for i := 0; i < nx; i++ {
+			f := genInField(t, fmt.Sprintf("x%d", i), 2)
+			g.prog.Input = append(g.prog.Input, f)
+			if f.Required || rapid.Bool().Draw(t, "in."+f.Name+".present") {
+				c.InputDoc[f.Name] = genFieldValue(t, f, "in."+f.Name)
+			}
+			var paths []inPath
+			inputPaths([]InField{f}, "", nil, &paths)
+			for _, ip := range paths {
+				typ := ip.typ
+				switch typ {
+				case "map_int":
+					typ = "map"
+				case "float":
+					continue
+				}
+				g.srcs = append(g.srcs, source{expr: &Expr{K: "in", Field: ip.field, Path: ip.path}, typ: typ})
+				g.label("input:rich-" + ip.typ)
+			}
+		}
+	}
+
 	// shape
 	n := rapid.IntRange(p.MinSteps, p.MaxSteps).Draw(t, "n_steps")
 	wide := false
@@ -411,7 +437,7 @@ func GenCase(t *rapid.T, p Profile, prop string) *Case {
 
 func (g *genCtx) genOutputLeaf(label string) *Val {
 	t := g.t
-	kinds := []string{"int", "string", "bool", "list_int", "obj"}
+	kinds := []string{"int", "string", "bool", "list_int", "obj", "map"}
 	if g.p.Tags && rapid.IntRange(0, 9).Draw(t, label+".tag?") < 3 {
 		if v := g.genTag(label, false); v != nil {
 			return v
@@ -508,7 +534,8 @@ func (g *genCtx) genStep(c *Case, i int, wide bool) {
 				}
 			}
 			if in.Get("any") == nil {
-				if objs := g.pick("obj", false); len(objs) > 0 {
+				objs := append(g.pick("obj", false), g.pick("map", false)...)
+				if len(objs) > 0 {
 					in.Set("any", ExprVal(objs[rapid.IntRange(0, len(objs)-1).Draw(t, lbl+".anysrc")].expr))
 				}
 			}
